@@ -290,7 +290,9 @@ Post(m, a) ==
     [] a.a \in {"run", "run2"} ->
          LET m1 == Invalidate(m, a.c) IN
          [m1 EXCEPT !.ctx[a.c] = RunOn(m.ctx[a.c], m.exe[a.h].p).cx]
-    [] a.a = "exec_free" -> [m EXCEPT !.exe[a.h] = [st |-> "free", c |-> "", p |-> 0, gen |-> 0]]
+    \* (the handle may be used again for another executable: it is no longer one the clones were taken with)
+    [] a.a = "exec_free" -> [m EXCEPT !.exe[a.h] = [st |-> "free", c |-> "", p |-> 0, gen |-> 0],
+                                      !.ctx = [c \in DOMAIN m.ctx |-> [m.ctx[c] EXCEPT !.par = @ \ {a.h}]]]
     [] a.a = "parse_expr" ->
          LET m1 == Invalidate(m, a.c) IN
          IF XParseOk(m.ctx[a.c], a.p) THEN [m1 EXCEPT !.expr[a.h] = [st |-> "ok", c |-> a.c, q |-> a.p, gen |-> m.ctx[a.c].gen]] ELSE m1
